@@ -14,6 +14,15 @@ IA, RA, RAA = X.IA, X.RA, X.RAA
 AXC = T.axioms('shape', 'centry')
 
 
+def expect_for_loops(fn, n):
+    """The invariants below are written for the `for` loops of the current source (j = number of completed iterations of a known
+    iterable); any other loop structure (a while loop, more / fewer loops) is a different function: ContractMismatch (undecided)."""
+    import ast
+    loops = [x for x in ast.walk(fn.node) if isinstance(x, (ast.For, ast.While))]
+    if len(loops) != n or not all(isinstance(x, ast.For) for x in loops):
+        raise M.ContractMismatch(f'{fn.qual}: the contract expects exactly {n} for-loop(s)')
+
+
 # ----------------------------------------------------------------------------------------------
 # ANOVA.cores_1, noise = 0: the VALUE of the returned tensor.
 #
@@ -76,9 +85,10 @@ def dot_lemmas(U):
     return dot2, tail
 
 
-@unit('anova_more.ANOVA.cores_1.value', props=('C13',))
+@unit('anova_more.ANOVA.cores_1.value', props=('C13', 'C11'))
 def u_cores_1_value(U):
     fn = U.func('anova', 'ANOVA.cores_1')
+    expect_for_loops(fn, 1)
     st = U.state()
     d, r = z3.Int('d'), z3.Int('r')
     noise, f0 = z3.Real('noise'), z3.Real('f0')
@@ -210,9 +220,10 @@ def table_ok(c, k, DM, shapes, ICOL, y, N, f0):
             z3.Implies(X.TDOM(c)[xq], z3.And(X.ccnt(ICOL[k], xq, N) >= 1, X.TVAL(c)[xq] == X.cmean(y, ICOL[k], xq, N) - f0)), jq, xq)
 
 
-@unit('anova_more.ANOVA.build_1', props=('C13',))
+@unit('anova_more.ANOVA.build_1', props=('C13', 'C11'))
 def u_build_1(U):
     fn = U.func('anova', 'ANOVA.build_1')
+    expect_for_loops(fn, 2)
     st = U.state()
     N, d = z3.Ints('N d')
     f0 = z3.Real('f0')
@@ -316,6 +327,7 @@ def u_calc_0(U):
 @unit('anova_more.ANOVA.calc_1', props=('C13',))
 def u_calc_1(U):
     fn = U.func('anova', 'ANOVA.calc_1')
+    expect_for_loops(fn, 1)
     st = U.state()
     d, n = z3.Ints('d n')
     F1, DOM1, ix = z3.Const('f1', RAA), z3.Const('dom1', z3.ArraySort(z3.IntSort(), X.BA)), z3.Const('ix', T.IDX)
@@ -411,6 +423,7 @@ def pairs_in_domain(WD, ix, n):
 @unit('anova_more.ANOVA.calc_2', props=('C13',))
 def u_calc_2(U):
     fn = U.func('anova', 'ANOVA.calc_2')
+    expect_for_loops(fn, 2)
     st = U.state()
     d, n, npairs = z3.Ints('d n npairs')
     F2C, ix = z3.Const('f2', IA), z3.Const('ix', T.IDX)
@@ -809,7 +822,7 @@ def u_anova(U):
 # self.coeffs = [c0, cf_1, .., cf_d] (constant term, then one vector of n-1 Chebyshev coefficients per mode; the fit itself is not
 # under contract).  Whole tensors are tokens; VALM(Y) is an ARBITRARY additive valuation of tensors (think: the value at a fixed
 # multi-index): add(A, B) has VALM(A) + VALM(B) (unit act_two.add.tt_tt: values add up), the tensor delta(shape, idx, v) with
-# idx = q e_i has dterm(i, q, v) and with idx = 0 has dzero(v) (unit tensors.delta: v at idx, 0 elsewhere) - the call-site
+# idx = q e_i (i = the mode at hand) has dterm(i, q, v) and with idx = 0 has dzero(v) (unit tensors.delta: v at idx, 0 elsewhere) - the call-site
 # contract OBLIGES that the shape is [n] * d and that idx is exactly that unit vector / the zero vector, inside the shape.  Proved:
 #   * the tensor before truncation is the formal sum   c0 delta(0,..,0) + sum_i sum_p cf_i[p] delta((p+1) e_i),
 #         VALM(A) = dzero(c0) + fsum_out(C, L, d),
@@ -823,6 +836,7 @@ VALM = z3.Function('valm', z3.IntSort(), z3.RealSort())
 @unit('anova_more.ANOVA_func.cores', props=('C13',))
 def u_func_cores(U):
     fn = U.func('anova_func', 'ANOVA_func.cores')
+    expect_for_loops(fn, 2)
     st = U.state()
     d, n = z3.Ints('d n')
     c0 = z3.Real('c0')
@@ -843,10 +857,11 @@ def u_func_cores(U):
         ex.oblige(s, 'call-pre', 'delta: d modes of size n each', z3.And(shp.n == d, z3.ForAll([tq], z3.Implies(z3.And(0 <= tq, tq < d), shp.arr[tq] == n))), node)
         ex.oblige(s, 'call-pre', 'delta: one index per mode', Z(idx.shape[0]) == d, node)
         D = ex.fresh_int('delta')
-        if 'i' in s.vars and 'pi' in s.vars and M.is_intsort(s.vars['i']) and M.is_intsort(s.vars['pi']):
-            i, q = Z(s.vars['i']), Z(s.vars['pi']) + 1
-            ex.oblige(s, 'call-pre', 'delta: the multi-index is (p+1) e_i - position p+1 of mode i, 0 in every other mode',
-                      z3.And(0 <= i, i < d, idx.t[i] == q, z3.ForAll([tq], z3.Implies(z3.And(0 <= tq, tq < d, tq != i), idx.t[tq] == 0))), node)
+        if '_j0' in s.ghost:             # inside the loop over the modes: mode i = number of completed iterations of that loop
+            i = s.ghost['_j0']
+            q = idx.t[i]
+            ex.oblige(s, 'call-pre', 'delta: the multi-index is q e_i - zero in every mode but the current one',
+                      z3.And(0 <= i, i < d, z3.ForAll([tq], z3.Implies(z3.And(0 <= tq, tq < d, tq != i), idx.t[tq] == 0))), node)
             ex.oblige(s, 'call-pre', 'delta: the multi-index is inside the shape', z3.And(0 <= q, q < n), node)
             s.assume(VALM(D) == X.dterm(i, q, M.to_real(v)))
         else:
@@ -944,9 +959,10 @@ class _Sel:
         return self.f(k)
 
 
-@unit('anova_more.ANOVA.build', props=('C13',))
+@unit('anova_more.ANOVA.build', props=('C13', 'C11'))
 def u_build(U):
     fn = U.func('anova', 'ANOVA.build')
+    expect_for_loops(fn, 1)
     st = U.state()
     N, d, order = z3.Ints('N d order')
     I_trn, ICOL, y_trn, y = _data(st, N, d)
@@ -1058,3 +1074,103 @@ def u_build(U):
             U.post('order>=1: every-key-is-an-observed-value-and-holds-the-conditional-mean-minus-the-sample-mean', ctx, z3.substitute(b_, (x_, xx)), axioms=AXU, mode='ematch')
         U.post('methods-untouched', p, z3.BoolVal(all(f.get(k) is v for k, v in methods.items())))
         U.canary('canary-empty-domains', ctx, ln == 0, axioms=AXU)
+
+
+# ----------------------------------------------------------------------------------------------
+# Hand-made mutants (MUT_BASE=/tmp/base tools/mut.sh <file> '<sed>' <units>) and the named obligation that reports each.
+# R(f, g) abbreviates the sed address '/def f/,/def g/' that restricts the edit to one method of teneva/anova.py.
+#
+# anova_more.ANOVA.cores_1.value      (anova.py, R(cores_1, cores_2))
+#   s/core\[1, :, 1\] = 1\./core[1, :, 0] = 1./                              inv-keep loop0.pattern-so-far
+#   s/self.f1_arr\[self.d-1\] + self.f0/self.f1_arr[self.d-1]/               post designated-entries-are-the-additive-model-pattern-and-every-other-entry-is-zero
+#   s/core\[0, :, 1\] = self.f1_arr\[i\]/core[0, :, 1] = self.f1_arr[i-1]/    call-pre fibre-assignment-length-matches, inv-keep loop0.pattern-so-far
+#   s/range(1, self.d-1)/range(1, self.d-2)/                                  post d-cores, core-shapes-.., designated-entries-..
+#   s/core\[1, :, 0\] = 1\./core[0, :, 0] = 1./                               post designated-entries-..
+#   quiet (equivalent): `core[1, :, 1] = 1.0 * 1`; undecided: -self.f1_arr[0] (Unsupported fibre value), while loop for the for loop (ContractMismatch)
+#   (the value lemmas are consequences of the pattern posts: a mutant of the source fails at the pattern, a wrong lemma at its own label)
+# anova_more.ANOVA.build_0            (anova.py)
+#   s/self.f0 = np.mean(y_trn)/self.f0 = np.mean(y_trn[:-1])/                safety mean-of-a-non-empty-array (refuted, N = 1), post f0-is-the-sample-mean: f0-times-.. (refuted)
+#   s/self.f0 = np.mean(y_trn)/self.f0 = -np.mean(y_trn)/                    post f0-is-the-sample-mean: .. (refuted)
+#   s/self.f0 = np.mean(y_trn)/self.f1 = np.mean(y_trn)/                     post sets-exactly-the-attribute-f0-to-a-number (refuted)
+#   s/self.f0 = np.mean(y_trn)/self.f0 = np.sum(y_trn)/                      post f0-is-the-sample-mean: .. (refuted)
+#   s/self.f0 = np.mean(y_trn)/self.f0 = np.sum(y_trn) \/ (len(y_trn)-1)/    safety division-by-nonzero, post f0-is-the-sample-mean: ..
+#   quiet (equivalent): y_trn.mean(), np.sum(y_trn) / len(y_trn); undecided: np.mean(I_trn) (Unsupported)
+# anova_more.ANOVA.build_1            (R(build_1, build_2))
+#   s/idx = I_trn\[:, k\] == x/idx = I_trn[:, 0] == x/                        safety mean-of-a-non-empty-selection, inv-keep loop1.every-key-is-an-observed-value-..(current)
+#   s/np.mean(y_trn\[idx\]) - self.f0/np.mean(y_trn[idx]) + self.f0/          inv-keep loop1.every-key-..(current)
+#   s/np.mean(y_trn\[idx\]) - self.f0/np.mean(y_trn[idx])/                    inv-keep loop1.every-key-..(current)
+#   s/np.mean(y_trn\[idx\]) - self.f0/np.mean(y_trn) - self.f0/               inv-keep loop1.every-key-..(current)
+#   s/f1_curr\[x\] = value/f1_curr[k] = value/                                inv-keep loop1.processed-points-are-keys, loop1.every-key-..(current)
+#   s/enumerate(self.domain)/enumerate(self.domain[:-1])/                     post one-table-per-mode, every-observed-value-.., every-key-..
+#   quiet (equivalent): y_trn[idx].mean(), `for k in range(len(self.domain)): dm = self.domain[k]`; undecided: mask written inline (Unsupported),
+#   self.f1.append moved out of the loop (Unsupported)
+# anova_more.ANOVA.build              (R(build, build_0))
+#   s/np.unique(I_trn\[:, k\])/np.unique(I_trn[:, 0])/                        inv-keep loop0.domain-is-the-sorted-distinct-values-of-the-column-and-shapes-its-length
+#   s/self.shapes\[k\] = len(points)/self.shapes[k] = len(points) + 1/        inv-keep loop0.domain-is-..   (likewise self.shapes[0] = ..)
+#   s/for k in range(self.d):/for k in range(self.d - 1):/                    post every-domain-point-occurs-in-its-column, every-entry-of-the-column-.., between-one-and-N-..
+#   s/if self.order >= 1:/if self.order > 1:/                                 post build_1-once-on-the-data-iff-order>=1-..
+#   s/if self.order >= 2:/if self.order >= 1:/                                post build_2-once-on-the-data-iff-order>=2-..
+#   s/self.d = I_trn.shape\[1\]/self.d = I_trn.shape[0]/                      inv-init loop0.one-size-per-mode
+#   delete `self.build_0(I_trn, y_trn)`                                       call-pre build_1: the constant term is set before.., post constant-term-is-the-sample-mean-..
+#   s/self.build_1(I_trn, y_trn)/self.build_1(y_trn, I_trn)/                  post build_1-once-on-the-data-..
+#   undecided: points[::-1] appended (ContractMismatch: no element-level value)
+# anova_more.ANOVA.calc_0 / calc_1 / calc_2 / calc      (R(calc, calc_0), R(calc_1, calc_2), R(calc_2, cores))
+#   calc_0: s/return self.f0/return -self.f0/, /return 0./                   post returns-the-constant-term (refuted); `self.f0 = 0.` first: post object-untouched
+#   calc_1: s/self.f1\[num\]\[x1\]/self.f1[x1][num]/                          safety list-index-in-range, key-present, inv-keep loop0.accumulated-sum-..
+#           s/res = 0\./res = 1./                                             inv-init loop0.accumulated-sum-of-the-per-mode-terms
+#           s/res += self.f1/res -= self.f1/                                  inv-keep loop0.accumulated-sum-..
+#           s/enumerate(x)/enumerate(x[1:])/                                  safety slice-in-range, key-present, inv-keep .., post sum-of-the-per-mode-terms-..
+#   calc_2: s/x\[i1+1:\], start=i1+1/x[i1:], start=i1+1/                      call-pre pair_num_to_num: two different modes.., safety key-present, inv-keep loop1.accumulated-pair-terms
+#           s/start=i1+1/start=i1/                                            call-pre pair_num_to_num: .., safety key-present, inv-keep loop1.accumulated-pair-terms
+#           s/\[x1, x2\]/[x2, x1]/                                            safety key-present, inv-keep loop1.accumulated-pair-terms
+#           s/pair_num_to_num(i1, i2)/pair_num_to_num(i1, i1)/                call-pre pair_num_to_num: two different modes in range
+#           s/self.f2\[num\]/self.f2[num+1]/                                  safety list-index-in-range, key-present, inv-keep loop1..
+#           s/enumerate(x\[:-1\])/enumerate(x[:-2])/                          safety slice-in-range, post sum-of-the-pair-terms-over-all-pairs-of-modes
+#           quiet (equivalent): enumerate(x) for enumerate(x[:-1]), pair_num_to_num(i2, i1)
+#   calc:   s/if self.order >= 1:/if self.order > 1:/                         post constant-plus-per-mode-terms-.. (refuted)
+#           s/res += self.calc_2(i)/res -= self.calc_2(i)/                    post constant-plus-.. (refuted)
+#           s/res = self.calc_0()/res = 0./                                   post constant-plus-.., every-term-is-evaluated-at-the-given-multi-index
+#           s/self.calc_1(i)/self.calc_1(i[:-1])/                             post constant-plus-.., every-term-is-evaluated-..
+#           s/if self.order >= 2:/if self.order >= 1:/                        call-pre calc_2: .., post constant-plus-..
+#           quiet (equivalent): res = res + self.calc_1(i); undecided: res = self.f0 (Unsupported: attribute outside the contract case)
+# anova_more.ANOVA.__call__.{single,batch,bad-ndim}      (R(__call__, __getitem__))
+#   s/return self.calc(I)/return 2 * self.calc(I)/                            single: post single-multi-index: the-model-value (refuted)
+#   s/self.calc(i) for i in I\]/-self.calc(i) for i in I]/                    batch: post batch: element-s-is-the-model-value-at-row-s (refuted)
+#   s/raise ValueError(..)/return None/                                       bad-ndim: raise-iff ValueError-for-an-array-that-is-neither-.. (refuted)
+#   undecided: the two ndim tests swapped, I[1:] / I[0] in the comprehension (Unsupported)
+# anova_more.ANOVA.cores.dispatch[.rel_noise]            (R(cores(self, cores_1))
+#   s/if self.order < 1:/if self.order <= 1:/                                 raise-iff ValueError-iff-order<1 (refuted)
+#   s/max(abs(self.y_max), abs(self.y_min))/min(..)/  and  /abs(max(self.y_max, self.y_min))/      post cores_1-gets-the-rank-and-the-(relative)-noise (refuted)
+#   s/self.cores_1(r, noise)/self.cores_1(noise, r)/                          post cores_1-gets-the-rank-and-the-(relative)-noise
+#   s/add_many(\[cores\] + cores2_many, r=r)/add_many(cores2_many, r=r)/      post add_many: first-order-tensor-first-then-all-pair-tensors-in-order
+#   s/add_many(\[cores\] + cores2_many, r=r)/add_many([cores] + cores2_many)/ post add_many-gets-one-list-of-tensors-and-only-the-rank-cap
+#   s/if self.order >= 2:/if self.order > 2:/                                 post cores_2-and-add_many-are-called-once-for-order>=2-.., order-1: the-first-order-tensor-itself; ..
+#   s/if rel_noise is not None:/if rel_noise is None:/                        safety operand-not-None, post cores_1-gets-the-rank-and-..
+#   s/self.cores_2(r, only_near)/self.cores_2(r)/                             post cores_2-gets-the-rank-and-only_near
+#   quiet (equivalent): keyword arguments, the product written the other way round
+# anova_more.ANOVA.__init__                               (R(__init__, __call__))
+#   s/in \[1, 2\]/in [1, 2, 3]/                                               raise-iff accepts-exactly-the-valid-arguments (refuted)
+#   s/if fpath is None:/if fpath is not None:/                                raise-iff (both), post build-iff-no-fpath
+#   s/I_trn is None or y_trn is None/I_trn is None and y_trn is None/         raise-iff accepts-exactly-the-valid-arguments
+#   s/I_trn is not None or y_trn is not None/I_trn is not None/               raise-iff accepts-exactly-the-valid-arguments
+#   s/self.build(I_trn, y_trn)/self.build(y_trn, I_trn)/                      post build-gets-the-samples-and-the-values
+#   s/teneva._rand(seed)/teneva._rand()/                                      post seed-goes-through-_rand-exactly-once
+#   s/self.order = order/self.order = 1/                                      post generator-and-order-are-stored
+#   quiet (equivalent): `if order not in (1, 2):`
+# anova_more.anova                                        (anova.py, the last return statement)
+#   ANOVA(I_trn, y_trn, order, None, fpath) / (y_trn, I_trn, ..) / (.., fpath, seed)          post one-ANOVA-object-from-(I_trn, y_trn, order, seed, fpath)
+#   .cores(r) / .cores(r, noise, rel_noise=noise)                            post one-call-of-cores-with-rank-and-noise-only
+#   .cores(noise, r)                                                          post cores-gets-the-rank-and-the-noise
+#   quiet (equivalent): keyword arguments in any order
+# anova_more.ANOVA_func.cores                             (anova_func.py, '/def cores(self, e/,/^def anova_func/')
+#   `if abs(p) < 1.E-12: continue` inserted in the inner loop (absolute-threshold skip)       inv-keep loop1.formal-sum-of-the-processed-coefficients
+#   s/idx\[i\] = pi + 1/idx[i] = pi/                                          inv-keep loop1.formal-sum-of-the-processed-coefficients
+#   s/idx\[i\] = pi + 1/idx[i] = pi + 2/                                      call-pre delta: the multi-index is inside the shape, inv-keep loop1.formal-sum-..
+#   s/idx\[i\] = pi + 1/idx[0] = pi + 1/                                      call-pre delta: the multi-index is q e_i - zero in every mode but the current one
+#   delete `idx[:] = 0`                                                       inv-init loop1.idx-is-zero-outside-the-current-mode
+#   s/enumerate(cfs\[1:\])/enumerate(cfs[1:][:-1])/                           post every-fitted-coefficient-enters-the-formal-sum-exactly-once-at-its-own-position
+#   s/idx, cfs\[0\])/idx, 0.)/                                                inv-init loop0.formal-sum-of-the-processed-modes
+#   s/idx, p))/idx, abs(p)))/                                                 inv-keep loop1.formal-sum-of-the-processed-coefficients
+#   s/return A if e is None else teneva.truncate(A, e)/return teneva.truncate(A, e)/          post truncation-iff-an-accuracy-is-given
+#   s/teneva.truncate(A, e)/teneva.truncate(A, e, 2)/                         post result-is-the-truncation-with-the-caller-s-accuracy-and-no-rank-cap
+#   quiet (equivalent): add(delta, A), enumerate(cf, 1) with idx[i] = pi, renamed loop variables
